@@ -287,6 +287,160 @@ impl TypeLoweringManager {
     );
     (type_parameters, function_type)
   }
+
+  /// `type_parameters` extended by the generic types of the current scope that are used by the
+  /// context parameter's type or anywhere in the body of a synthetic lambda function.
+  pub(super) fn with_generic_types_used_in_lambda_body(
+    &self,
+    type_parameters: Vec<PStr>,
+    context_type: &Type,
+    body: &[samlang_ast::hir::Statement],
+    return_value: &samlang_ast::hir::Expression,
+  ) -> Vec<PStr> {
+    let mut collector: OrderSet<PStr> = type_parameters.into_iter().collect();
+    collect_used_generic_types_visitor(context_type, &self.generic_types, &mut collector);
+    collect_used_generic_types_in_stmts(body, &self.generic_types, &mut collector);
+    collect_used_generic_types_in_expr(return_value, &self.generic_types, &mut collector);
+    Vec::from_iter(collector.into_iter().sorted())
+  }
+}
+
+fn collect_used_generic_types_in_expr(
+  expression: &samlang_ast::hir::Expression,
+  generic_types: &OrderSet<PStr>,
+  collector: &mut OrderSet<PStr>,
+) {
+  if let samlang_ast::hir::Expression::Variable(v) = expression {
+    collect_used_generic_types_visitor(&v.type_, generic_types, collector);
+  }
+}
+
+fn collect_used_generic_types_in_fn_name(
+  fn_name: &samlang_ast::hir::FunctionNameExpression,
+  generic_types: &OrderSet<PStr>,
+  collector: &mut OrderSet<PStr>,
+) {
+  let type_name = &fn_name.name.type_name;
+  if type_name.module_reference.is_none() && generic_types.contains(&type_name.type_name) {
+    collector.insert(type_name.type_name);
+  }
+  for t in fn_name.type_.argument_types.iter().chain(fn_name.type_arguments.iter()) {
+    collect_used_generic_types_visitor(t, generic_types, collector);
+  }
+  collect_used_generic_types_visitor(&fn_name.type_.return_type, generic_types, collector);
+}
+
+fn collect_used_generic_types_in_stmts(
+  stmts: &[samlang_ast::hir::Statement],
+  generic_types: &OrderSet<PStr>,
+  collector: &mut OrderSet<PStr>,
+) {
+  let id = |t: &IdType, collector: &mut OrderSet<PStr>| {
+    for t in t.type_arguments.iter() {
+      collect_used_generic_types_visitor(t, generic_types, collector);
+    }
+  };
+  for stmt in stmts {
+    match stmt {
+      samlang_ast::hir::Statement::Not { name: _, operand } => {
+        collect_used_generic_types_in_expr(operand, generic_types, collector)
+      }
+      samlang_ast::hir::Statement::Binary { name: _, operator: _, e1, e2 } => {
+        collect_used_generic_types_in_expr(e1, generic_types, collector);
+        collect_used_generic_types_in_expr(e2, generic_types, collector);
+      }
+      samlang_ast::hir::Statement::IndexedAccess {
+        name: _,
+        type_,
+        pointer_expression,
+        index: _,
+      } => {
+        collect_used_generic_types_visitor(type_, generic_types, collector);
+        collect_used_generic_types_in_expr(pointer_expression, generic_types, collector);
+      }
+      samlang_ast::hir::Statement::Call { callee, arguments, return_type, return_collector: _ } => {
+        match callee {
+          samlang_ast::hir::Callee::FunctionName(n) => {
+            collect_used_generic_types_in_fn_name(n, generic_types, collector)
+          }
+          samlang_ast::hir::Callee::Variable(v) => {
+            collect_used_generic_types_visitor(&v.type_, generic_types, collector)
+          }
+        }
+        for a in arguments {
+          collect_used_generic_types_in_expr(a, generic_types, collector);
+        }
+        collect_used_generic_types_visitor(return_type, generic_types, collector);
+      }
+      samlang_ast::hir::Statement::ConditionalDestructure {
+        test_expr,
+        tag: _,
+        bindings,
+        s1,
+        s2,
+        final_assignments,
+      } => {
+        collect_used_generic_types_in_expr(test_expr, generic_types, collector);
+        for (_, t) in bindings.iter().flatten() {
+          collect_used_generic_types_visitor(t, generic_types, collector);
+        }
+        collect_used_generic_types_in_stmts(s1, generic_types, collector);
+        collect_used_generic_types_in_stmts(s2, generic_types, collector);
+        for (_, t, e1, e2) in final_assignments {
+          collect_used_generic_types_visitor(t, generic_types, collector);
+          collect_used_generic_types_in_expr(e1, generic_types, collector);
+          collect_used_generic_types_in_expr(e2, generic_types, collector);
+        }
+      }
+      samlang_ast::hir::Statement::IfElse { condition, s1, s2, final_assignments } => {
+        collect_used_generic_types_in_expr(condition, generic_types, collector);
+        collect_used_generic_types_in_stmts(s1, generic_types, collector);
+        collect_used_generic_types_in_stmts(s2, generic_types, collector);
+        for (_, t, e1, e2) in final_assignments {
+          collect_used_generic_types_visitor(t, generic_types, collector);
+          collect_used_generic_types_in_expr(e1, generic_types, collector);
+          collect_used_generic_types_in_expr(e2, generic_types, collector);
+        }
+      }
+      samlang_ast::hir::Statement::LateInitDeclaration { name: _, type_ } => {
+        collect_used_generic_types_visitor(type_, generic_types, collector)
+      }
+      samlang_ast::hir::Statement::LateInitAssignment { name: _, assigned_expression } => {
+        collect_used_generic_types_in_expr(assigned_expression, generic_types, collector)
+      }
+      samlang_ast::hir::Statement::StructInit {
+        struct_variable_name: _,
+        type_,
+        expression_list,
+      } => {
+        id(type_, collector);
+        for e in expression_list {
+          collect_used_generic_types_in_expr(e, generic_types, collector);
+        }
+      }
+      samlang_ast::hir::Statement::EnumInit {
+        enum_variable_name: _,
+        enum_type,
+        tag: _,
+        associated_data_list,
+      } => {
+        id(enum_type, collector);
+        for e in associated_data_list {
+          collect_used_generic_types_in_expr(e, generic_types, collector);
+        }
+      }
+      samlang_ast::hir::Statement::ClosureInit {
+        closure_variable_name: _,
+        closure_type,
+        function_name,
+        context,
+      } => {
+        id(closure_type, collector);
+        collect_used_generic_types_in_fn_name(function_name, generic_types, collector);
+        collect_used_generic_types_in_expr(context, generic_types, collector);
+      }
+    }
+  }
 }
 
 #[cfg(test)]
